@@ -2,6 +2,7 @@ mod alloc;
 mod codec;
 mod engine;
 mod fq;
+mod hs;
 mod refcodec;
 mod sim;
 
@@ -112,6 +113,17 @@ fn cmd_c03(args: &[String]) {
     println!("{}", serde_json::json!({"vectors": vectors.len(), "events": n}));
 }
 
+fn cmd_c04(args: &[String]) {
+    let inp = arg(args, "--in").expect("--in");
+    let out = arg(args, "--out").expect("--out");
+    let cells = read_ndjson(&inp);
+    engine::install_panic_hook();
+    let rt = tokio::runtime::Builder::new_current_thread().enable_all().build().unwrap();
+    let evs = rt.block_on(hs::c04(&cells));
+    write_ndjson(&out, &evs);
+    println!("{}", serde_json::json!({"cells": cells.len(), "events": evs.len()}));
+}
+
 fn main() {
     let args: Vec<String> = std::env::args().collect();
     match args.get(1).map(|s| s.as_str()) {
@@ -120,6 +132,7 @@ fn main() {
         Some("c01") => cmd_c01(&args),
         Some("c02") => cmd_c02(&args),
         Some("c03") => cmd_c03(&args),
+        Some("c04") => cmd_c04(&args),
         _ => {
             eprintln!("usage: zv run --in scripts.ndjson --out trace.ndjson");
             std::process::exit(2);
